@@ -183,7 +183,14 @@ func runC11(tb ev.TB, p c11Prog) ev.Result {
 	if stalls && p.TimeoutMs > 0 {
 		timeout = time.Duration(p.TimeoutMs) * time.Millisecond
 	}
-	ctx, cancel := context.WithCancel(context.Background())
+	base := context.Background()
+	if p.Replica%3 == 1 {
+		// the caller's context has a deadline of its own, far away: the configured timeout still applies
+		var cancelBase context.CancelFunc
+		base, cancelBase = context.WithTimeout(base, 30*time.Minute)
+		defer cancelBase()
+	}
+	ctx, cancel := context.WithCancel(base)
 	defer cancel()
 	cancelled := false
 	var result []iface.IPFSLogEntry
@@ -349,7 +356,13 @@ func runSlowChain(tb ev.TB, p c11Prog) ev.Result {
 	var elapsed time.Duration
 	for attempt := 0; attempt < 3; attempt++ {
 		t0 := time.Now()
-		result := entry.FetchParallel(ctx, st.API(), []cid.Cid{head}, &iface.FetchOptions{Concurrency: p.Concurrency, Timeout: timeout, IO: world.IO(world.CodecDefault, 0)})
+		fctx := ctx
+		if p.Replica%2 == 1 {
+			var cancelF context.CancelFunc
+			fctx, cancelF = context.WithTimeout(ctx, 30*time.Minute) // a caller's own, distant deadline
+			defer cancelF()
+		}
+		result := entry.FetchParallel(fctx, st.API(), []cid.Cid{head}, &iface.FetchOptions{Concurrency: p.Concurrency, Timeout: timeout, IO: world.IO(world.CodecDefault, 0)})
 		elapsed = time.Since(t0)
 		seen := world.Set{}
 		for _, e := range result {
